@@ -6,6 +6,7 @@ without close, the command line's CutplaceApp.validate.  Explorer (H): BFS to th
 canonical CID state (all histories of every length); differential oracle: every operation's
 complete observation must equal the observation of the same operation on a freshly loaded CID.
 """
+import hashlib
 import io
 import os
 
@@ -14,20 +15,22 @@ from mc.core import Part
 
 MOD = "mc.props.c08"
 DATA = {
-    "clean": [["1", "a"], ["2", "b"]],
-    "dup": [["1", "a"], ["1", "b"], ["3", "c"]],
-    "many": [["1", "a"], ["2", "b"], ["3", "c"], ["4", "d"]],
-    "other": [["2", "x"], ["5", "y"]],
+    "clean": [["1", "a", "red"], ["2", "b", "blue"]],
+    "dup": [["1", "a", "red"], ["1", "b", "green"], ["3", "c", "blue"]],
+    "many": [["1", "a", "blue"], ["2", "b", "red"], ["3", "c", "green"], ["4", "d", "blue"]],
+    "other": [["2", "x", "blue"], ["5", "y", "green"]],
+    # a value outside the choices, a character outside the allowed characters, then rows using the last declared choice and the same character again
+    "bad": [["6", "a", "black"], ["7", "\xfc", "red"], ["8", "b", "blue"], ["9", "\xfc", "blue"]],
 }
 CIDS = {
-    "delimited": [["D", "Format", "Delimited"], ["D", "Line delimiter", "LF"], ["F", "id", "", "", "", "Integer", "0...99"], ["F", "name", "", "", "1...2"],
-                  ["C", "uniq", "IsUnique", "id"], ["C", "few", "DistinctCount", "name < 3"]],
-    "fixed": [["D", "Format", "Fixed"], ["D", "Line delimiter", "LF"], ["F", "id", "", "", "2", "Integer", "0...99"], ["F", "name", "", "", "2"],
-              ["C", "uniq", "IsUnique", "id"], ["C", "few", "DistinctCount", "name < 3"]],
+    "delimited": [["D", "Format", "Delimited"], ["D", "Line delimiter", "LF"], ["F", "id", "", "", "", "Integer", "0...99"], ["F", "name", "", "", "1...2"], ["F", "kind", "", "", "", "Choice", "red, green, blue"],
+                  ["D", "Allowed characters", "32...126"], ["C", "uniq", "IsUnique", "id"], ["C", "few", "DistinctCount", "name < 3"]],
+    "fixed": [["D", "Format", "Fixed"], ["D", "Line delimiter", "LF"], ["F", "id", "", "", "2", "Integer", "0...99"], ["F", "name", "", "", "2"], ["F", "kind", "", "", "5", "Choice", "red, green, blue"],
+              ["D", "Allowed characters", "32...126"], ["C", "uniq", "IsUnique", "id"], ["C", "few", "DistinctCount", "name < 3"]],
 }
 # fixed data whose lines end in a lone CR, read under the default line delimiter 'any' (the reader has to look one character ahead)
 CIDS["fixed_cr"] = [row for row in CIDS["fixed"] if row[1] != "Line delimiter"]
-WIDTHS = [2, 2]
+WIDTHS = [2, 2, 5]
 
 
 def text_of(kind, name):
@@ -172,12 +175,38 @@ def op_write_with(cid, kind, keep, name):
     return [results, target.getvalue()]
 
 
-def op_validate(cid, kind, keep, name):
+def op_open_close(cid, kind, keep, name, call_rows):
+    """A Reader that is opened and closed without reading anything: a run over no rows."""
+    m = harness.modules()
+    try:
+        with m["validio"].Reader(cid, harness.NamedStringIO(text_of(kind, name), "data.txt")) as reader:
+            if call_rows:
+                reader.rows()  # the generator is never started
+        return "ok"
+    except m["errors"].CutplaceError as error:
+        return ["RAISED", harness.describe_error(error)]
+
+
+def op_close_held(cid, kind, keep):
+    """Close the oldest reader constructed up front without reading from it."""
+    m = harness.modules()
+    for index, entry in enumerate(keep):
+        if isinstance(entry, tuple) and entry[0] == "reader":
+            _, name, reader = keep.pop(index)
+            try:
+                reader.close()
+                return ["closed-unread", "ok"]
+            except m["errors"].CutplaceError as error:
+                return ["closed-unread", "CLOSE-RAISED", harness.describe_error(error)]
+    return "nothing-held"
+
+
+def op_validate(cid, kind, keep, name, limit=None):
     import cutplace
 
     errors = harness.modules()["errors"]
     try:
-        cutplace.validate(cid, harness.NamedStringIO(text_of(kind, name), "data.txt"))
+        cutplace.validate(cid, harness.NamedStringIO(text_of(kind, name), "data.txt"), validate_until=limit)
         return "ok"
     except errors.CutplaceError as error:
         return ["RAISED", harness.describe_error(error)]
@@ -243,6 +272,15 @@ OPS = {
     "noclose_dup": (op_noclose, ("dup",)),
     "validate_clean": (op_validate, ("clean",)),
     "validate_dup": (op_validate, ("dup",)),
+    "validate_other_until0": (op_validate, ("other", 0)),
+    "validate_dup_until1": (op_validate, ("dup", 1)),
+    "validate_bad": (op_validate, ("bad",)),
+    "read_bad_yield": (op_read, ("bad", "yield")),
+    "read_bad_raise": (op_read, ("bad", "raise")),
+    "open_close_reader": (op_open_close, ("other", False)),
+    "open_rows_close_reader": (op_open_close, ("clean", True)),
+    "close_held_reader": (op_close_held, ()),
+    "write_bad_close": (op_write, ("bad", True)),
     "write_clean": (op_write, ("clean", False)),
     "write_clean_close": (op_write, ("clean", True)),
     "write_dup_close": (op_write, ("dup", True)),
@@ -293,6 +331,14 @@ def judge(case, part):
                     op_hold_reader(fresh, kind, fresh_keep, observed[1])
                     _FRESH[key] = op_consume_held(fresh, kind, fresh_keep)
                 expected = _FRESH[key]
+            elif last == "close_held_reader" and isinstance(observed, list):
+                key = (kind, "close-unread")
+                if key not in _FRESH:
+                    fresh_keep = []
+                    fresh = fresh_cid(kind)
+                    op_hold_reader(fresh, kind, fresh_keep, "clean")
+                    _FRESH[key] = op_close_held(fresh, kind, fresh_keep)
+                expected = _FRESH[key]
             else:
                 expected = fresh_observation(kind, last)
             part.validated += 1
@@ -302,7 +348,9 @@ def judge(case, part):
             if observed != expected:
                 part.fail("%s|%s|outcome-differs-from-fresh-cid" % (kind, last), case, expected, observed)
         held_readers = tuple(entry[1] for entry in keep if isinstance(entry, tuple))
-        state = (readermachine.check_snapshot(cid), len(keep) > len(held_readers), held_readers)
+        # the definition itself (field formats, data format) belongs to the state: a run that changes it must not be merged with one that does not
+        definition = hashlib.sha1(repr(snapshot.snap([cid.field_formats, cid.data_format])).encode("utf-8")).hexdigest()
+        state = (readermachine.check_snapshot(cid), len(keep) > len(held_readers), held_readers, definition)
     finally:
         op_release(cid, kind, keep)
     return state
@@ -322,7 +370,7 @@ def explore(item):
             for name in history:
                 if name.startswith("hold_reader"):
                     held += 1
-                elif name == "consume_held_reader" and held:
+                elif name in ("consume_held_reader", "close_held_reader") and held:
                     held -= 1
             return held < 2
         return True
